@@ -6,7 +6,8 @@ import numpy as np
 import z3
 from .core import SReal, SBool
 
-LAZY_CACHES = {'_mutable_vars', '_fun_shape', '_funvec_shape', '_ids', '_variables', '_non_default_args_cache'}
+LAZY_CACHES = {'_mutable_vars', '_fun_shape', '_funvec_shape', '_ids', '_variables', '_non_default_args_cache',
+               '_coefs', '_coefs_inverse'}      # (KL scalings: recomputed whenever the number of modes differs)
 
 
 def _leaf(v):
@@ -14,6 +15,17 @@ def _leaf(v):
     if isinstance(v, SBool): return ('B', v.t.get_id(), v.t)
     if isinstance(v, (bool, int, float, complex, str, bytes, type(None), np.generic)): return ('v', repr(v))
     return None
+
+
+BY_CODE = [False]      # functions described by code object + closure contents instead of identity (see snapshot_by_code)
+
+
+def snapshot_by_code(obj, exclude=(), owner=None):
+    """snapshot in which a function is its code object plus the contents of its closure cells and defaults, a bound method its
+    function plus receiver: two closures created by running the same `def`/`lambda` over equal values compare equal"""
+    BY_CODE[0] = True         # owner: an object whose occurrences (e.g. `self` captured by a closure) are described as a back reference only
+    try: return snapshot(obj, exclude, {id(owner): 0} if owner is not None else None)
+    finally: BY_CODE[0] = False
 
 
 def snapshot(obj, exclude=(), _seen=None, depth=0):
@@ -32,11 +44,17 @@ def snapshot(obj, exclude=(), _seen=None, depth=0):
         return (type(obj).__name__, oid if isinstance(obj, list) else 0, tuple(snapshot(e, exclude, _seen, depth + 1) for e in obj))
     if isinstance(obj, dict):
         return ('dict', oid, tuple((repr(k), snapshot(v, exclude, _seen, depth + 1)) for k, v in obj.items()))
+    if BY_CODE[0] and isinstance(obj, types.FunctionType):
+        cells = tuple(snapshot(cl.cell_contents, exclude, _seen, depth + 1) if _filled(cl) else ('empty',) for cl in (obj.__closure__ or ()))
+        return ('function', id(obj.__code__), cells, snapshot(obj.__defaults__, exclude, _seen, depth + 1))
+    if BY_CODE[0] and isinstance(obj, types.MethodType):
+        return ('method', id(obj.__func__.__code__) if hasattr(obj.__func__, '__code__') else id(obj.__func__), snapshot(obj.__self__, exclude, _seen, depth + 1))
     if isinstance(obj, (types.FunctionType, types.MethodType, types.BuiltinFunctionType, type)) or callable(obj) and not hasattr(obj, '__dict__'):
         return ('callable', oid)
     mod = type(obj).__module__ or ''
     if hasattr(obj, 'toarray') and 'scipy' in mod:
         a = obj.toarray(); return ('sparse', oid, a.shape, a.tobytes() if a.size <= 65536 else a.size)
+    if mod == 'pvc.ctx': return ('opaque', type(obj).__name__, oid)          # the verification context itself (captured by contract stubs)
     if hasattr(obj, '__dict__') and (mod.startswith('cuqi') or mod.startswith('contracts') or mod.startswith('pvc') or mod == 'functools'):
         items = []
         for k, v in vars(obj).items():
@@ -46,6 +64,23 @@ def snapshot(obj, exclude=(), _seen=None, depth=0):
     if type(obj).__name__ == 'partial':
         return ('partial', oid, snapshot(obj.func, exclude, _seen), snapshot(obj.args, exclude, _seen), snapshot(obj.keywords, exclude, _seen))
     return ('opaque', type(obj).__name__, oid)
+
+
+def _filled(cell):
+    try: cell.cell_contents; return True
+    except ValueError: return False
+
+
+def structural(s):
+    """forget object identities of containers / arrays / cuqi objects and back-reference numbers: compares the *values* held by two
+    different objects (callables and opaque objects keep their identity unless snapshot_by_code was used)"""
+    if isinstance(s, tuple):
+        if s and s[0] in ('array', 'sparse', 'list', 'dict'): return (s[0], 0) + tuple(structural(e) for e in s[2:])
+        if s and s[0] == 'obj' and len(s) == 4: return ('obj', s[1], 0, structural(s[3]))
+        if s and s[0] == 'ref': return ('ref',)
+        if len(s) == 3 and s[0] in ('S', 'B'): return (s[0], s[1])
+        return tuple(structural(e) for e in s)
+    return s
 
 
 def _strip(s):
